@@ -2,6 +2,7 @@
 pub mod child;
 pub mod clock;
 pub mod core;
+pub mod grl;
 pub mod pan;
 pub mod quiet;
 pub mod rng;
